@@ -29,11 +29,16 @@ Fixpoint run_queries (p : profile) (st : symtab) (mbase : Z) (tbl : list (range 
   end.
 
 (* module 0 is (mbase, msize, symbols); the further modules carry a flag: 0 = unknown to the supplier, 1 = the same symbol
-   file, 2 = a symbol file that does not parse.  Second pass: after the queries, the Symbolizer's pending_stats / stats as
+   file, 2 = a symbol file that does not parse, 3 = another symbol file (alt_table).  Second pass: after the queries, the Symbolizer's pending_stats / stats as
    C12's cache model gives them for the session (Session.session_stats): the lookups are, per query, the module the table
    finds (front-end S) and the (debug_file, debug_id) pseudo-module of front-end G (key = length of the module list) *)
+(* flag 3: the supplier has ANOTHER symbol file for the module: "FUNC 0 ffffffff 0 f9999" (c11_nonvacuous_alt_table: this is
+   what build_symtab makes of it) *)
+Definition alt_file : raw_file := mk_raw [] [] [] [mk_fraw 0 4294967295 0 9999 [] []] [] [].
+Definition alt_table : symtab :=
+  mk_symtab [] [] [] [((0, 4294967294), mk_func 0 4294967295 0 9999 [] [])] [] [].
 Definition sup_of_flag (st : symtab) (f : Z) : sup :=
-  if f =? 1 then SymOk st else if f =? 2 then SymCorrupt else SymMissing.
+  if f =? 1 then SymOk st else if f =? 2 then SymCorrupt else if f =? 3 then SymOk alt_table else SymMissing.
 Definition case_result : Type :=
   (list (sym_out * option (Z * sym_out) * option Z * outcome sym_out * outcome sframe) * (nat * nat * list (option (bool * bool))))%type.
 Definition run_case_st (st : symtab) (mbase msize : Z) (extra : list (Z * Z * Z)) (qs : list Z) : outcome case_result :=
